@@ -324,6 +324,13 @@ func scenarioC09(c *RunCtx) {
 		AllowShipped: true,
 		Landscapes:   append([]int{LandSpeciesZero, LandSpeciesZero}, PositiveLands...),
 	}
+	// one run in sixteen: positive fitness that is a small whole multiple of the smallest float64. Every quotient of
+	// such values is rounded to whole units, so only the clause that needs no arithmetic of the oracle's own is judged
+	// there: the quotas total the population size (known finding F22 lives here).
+	subnormal := t.Chance("subnormalFitness", 1, 16)
+	if subnormal {
+		spec.Landscapes = []int{LandSubnormalUnits}
+	}
 	var w *World
 	c.LibSoft("construct", func() { w = NewWorld(t, spec) })
 	if w.ConstructErr != nil {
@@ -367,7 +374,20 @@ func scenarioC09(c *RunCtx) {
 		snap := StepEpoch(c, w, false, nil, c.LibSoft)
 		c.Steps++
 		c.Op("epoch %d: %d species, err=%v", e, len(snap.Species), snap.Err)
-		checkQuotas(c, w, snap)
+		if subnormal {
+			c.Count("probe.fitness_subnormal_units")
+			if P := snap.Prepared; P != nil && !deltaCodingFired(snap) {
+				sumQ := 0
+				for _, ss := range snap.Species {
+					sumQ += P.Quota[ss.Sp]
+				}
+				if sumQ != w.Opts.PopSize {
+					c.FailSoft("quota-total", "world [start=%s fitness=%s] generation %d: species quotas total %d, the population size is %d (babies stolen %d)", w.KindName, w.Land.Name(), snap.Gen, sumQ, w.Opts.PopSize, w.Opts.BabiesStolen)
+				}
+			}
+		} else {
+			checkQuotas(c, w, snap)
+		}
 		if snap.Err != nil {
 			c.Counters["abandoned.epoch-error"]++
 			return
